@@ -512,6 +512,232 @@ func (k *r16fclient) Return(s r16fstate, ret *ssa.Return) {
 	}
 }
 
+// compRef names one component of a call's result: a tuple index, optionally
+// followed by a field index of a struct-typed result ("0", "0.2").
+type compRef struct {
+	call *ssa.Call
+	path string
+}
+
+// resolveComp: v is a component of a call result, read directly or through a
+// local the whole result was stored into once.
+func resolveComp(v ssa.Value, depth int) (compRef, bool) {
+	if depth > 4 {
+		return compRef{}, false
+	}
+	switch x := v.(type) {
+	case *ssa.Call:
+		if x.Common().Signature().Results().Len() == 1 {
+			return compRef{x, "0"}, true
+		}
+	case *ssa.Extract:
+		if c, ok := x.Tuple.(*ssa.Call); ok {
+			return compRef{c, fmt.Sprint(x.Index)}, true
+		}
+	case *ssa.Field:
+		if r, ok := resolveComp(x.X, depth+1); ok {
+			return compRef{r.call, fmt.Sprintf("%s.%d", r.path, x.Field)}, true
+		}
+	case *ssa.UnOp:
+		if x.Op != token.MUL {
+			break
+		}
+		switch a := x.X.(type) {
+		case *ssa.FieldAddr:
+			al, ok := a.X.(*ssa.Alloc)
+			if !ok {
+				break
+			}
+			if whole := soleWholeStore(al); whole != nil {
+				if r, ok := resolveComp(whole, depth+1); ok {
+					return compRef{r.call, fmt.Sprintf("%s.%d", r.path, a.Field)}, true
+				}
+			}
+		case *ssa.Alloc:
+			if whole := soleWholeStore(a); whole != nil {
+				return resolveComp(whole, depth+1)
+			}
+		}
+	}
+	return compRef{}, false
+}
+
+// resolveRoot is resolveComp for values that may also be (fields of) a
+// parameter: the root is a *ssa.Call or a *ssa.Parameter; the path of a call
+// result starts with its tuple index, the path of a parameter with a field
+// index ("" for the parameter itself).
+func resolveRoot(v ssa.Value, depth int) (ssa.Value, string, bool) {
+	if depth > 5 {
+		return nil, "", false
+	}
+	join := func(a string, f int) string {
+		if a == "" {
+			return fmt.Sprint(f)
+		}
+		return fmt.Sprintf("%s.%d", a, f)
+	}
+	switch x := v.(type) {
+	case *ssa.Parameter:
+		return x, "", true
+	case *ssa.Call:
+		if x.Common().Signature().Results().Len() == 1 {
+			return x, "0", true
+		}
+	case *ssa.Extract:
+		if c, ok := x.Tuple.(*ssa.Call); ok {
+			return c, fmt.Sprint(x.Index), true
+		}
+	case *ssa.Field:
+		if r, pth, ok := resolveRoot(x.X, depth+1); ok {
+			return r, join(pth, x.Field), true
+		}
+	case *ssa.UnOp:
+		if x.Op != token.MUL {
+			break
+		}
+		switch a := x.X.(type) {
+		case *ssa.FieldAddr:
+			al, ok := a.X.(*ssa.Alloc)
+			if !ok {
+				break
+			}
+			if whole := soleWholeStore(al); whole != nil {
+				if r, pth, ok := resolveRoot(whole, depth+1); ok {
+					return r, join(pth, a.Field), true
+				}
+			}
+		case *ssa.Alloc:
+			if whole := soleWholeStore(a); whole != nil {
+				return resolveRoot(whole, depth+1)
+			}
+		}
+	}
+	return nil, "", false
+}
+
+// componentType: the type of a result component named by a path of resultPaths.
+func componentType(sig *types.Signature, path string) types.Type {
+	parts := strings.Split(path, ".")
+	var idx int
+	if _, err := fmt.Sscan(parts[0], &idx); err != nil || idx >= sig.Results().Len() {
+		return nil
+	}
+	t := sig.Results().At(idx).Type()
+	for _, ps := range parts[1:] {
+		st, ok := t.Underlying().(*types.Struct)
+		var f int
+		if _, err := fmt.Sscan(ps, &f); err != nil || !ok || f >= st.NumFields() {
+			return nil
+		}
+		t = st.Field(f).Type()
+	}
+	return t
+}
+
+// soleWholeStore: the local is written exactly once, as a whole, and otherwise
+// only read (whole or field-wise); returns the stored value.
+func soleWholeStore(a *ssa.Alloc) ssa.Value {
+	var val ssa.Value
+	if a.Referrers() == nil {
+		return nil
+	}
+	for _, rf := range *a.Referrers() {
+		switch x := rf.(type) {
+		case *ssa.Store:
+			if x.Addr != ssa.Value(a) || val != nil {
+				return nil
+			}
+			val = x.Val
+		case *ssa.UnOp:
+			if x.Op != token.MUL {
+				return nil
+			}
+		case *ssa.FieldAddr:
+			if x.Referrers() != nil {
+				for _, fr := range *x.Referrers() {
+					if u, ok := fr.(*ssa.UnOp); !ok || u.Op != token.MUL {
+						return nil
+					}
+				}
+			}
+		case *ssa.DebugRef:
+		default:
+			return nil
+		}
+	}
+	return val
+}
+
+// resultPaths: the components of a signature's results, one level into
+// struct-typed results.
+func resultPaths(sig *types.Signature) []string {
+	var out []string
+	for i := 0; i < sig.Results().Len(); i++ {
+		out = append(out, fmt.Sprint(i))
+		if st, ok := sig.Results().At(i).Type().Underlying().(*types.Struct); ok {
+			for j := 0; j < st.NumFields(); j++ {
+				out = append(out, fmt.Sprintf("%d.%d", i, j))
+			}
+		}
+	}
+	return out
+}
+
+// returnComponent: the value a return statement gives the component; zero is
+// set when it is the zero value of a struct built without that field.
+func returnComponent(ret *ssa.Return, path string) (v ssa.Value, zero bool, ok bool) {
+	parts := strings.Split(path, ".")
+	var idx, fld int
+	if _, err := fmt.Sscan(parts[0], &idx); err != nil || idx >= len(ret.Results) {
+		return nil, false, false
+	}
+	rv := ret.Results[idx]
+	if len(parts) == 1 {
+		return rv, false, true
+	}
+	if _, err := fmt.Sscan(parts[1], &fld); err != nil {
+		return nil, false, false
+	}
+	if c, isC := rv.(*ssa.Const); isC && c.Value == nil {
+		return nil, true, true
+	}
+	ld, isLd := rv.(*ssa.UnOp)
+	if !isLd || ld.Op != token.MUL {
+		return nil, false, false
+	}
+	al, isAl := ld.X.(*ssa.Alloc)
+	if !isAl || al.Referrers() == nil {
+		return nil, false, false
+	}
+	var stored ssa.Value
+	n := 0
+	for _, rf := range *al.Referrers() {
+		switch x := rf.(type) {
+		case *ssa.Store:
+			if x.Addr == ssa.Value(al) {
+				return nil, false, false // whole-value store: not a plain literal
+			}
+		case *ssa.FieldAddr:
+			if x.Field != fld || x.Referrers() == nil {
+				continue
+			}
+			for _, fr := range *x.Referrers() {
+				if st, ok := fr.(*ssa.Store); ok && st.Addr == ssa.Value(x) {
+					stored = st.Val
+					n++
+				}
+			}
+		}
+	}
+	switch n {
+	case 0:
+		return nil, true, true
+	case 1:
+		return stored, false, true
+	}
+	return nil, false, false
+}
+
 // ---------------------------------------------------------------------
 // R16
 // ---------------------------------------------------------------------
@@ -542,19 +768,67 @@ func R16(p *core.Prog) *core.Result {
 		for _, kk := range sortedKeys(k.bad) {
 			r.Fail(".FRESH-GATE", "json.(*Parser).unquote|"+kk, p.Pos(unq.Pos()), "json.(*Parser).unquote "+k.bad[kk], "")
 		}
-		// doString passes unquote's (buffer, allocated) through unchanged
+		// doString passes unquote's (buffer, allocated) through unchanged - as two results, or as two fields of a
+		// result struct: find the components that carry them
 		okPass := true
+		bufPath, flagPath := "", ""
+		paths := resultPaths(dos.Signature)
 		for _, b := range dos.Blocks {
 			for _, in := range b.Instrs {
 				ret, ok := in.(*ssa.Return)
 				if !ok {
 					continue
 				}
-				b0, f0 := ret.Results[0], ret.Results[1]
-				if isNilConst(b0) {
+				for _, pth := range paths {
+					v, zero, ok := returnComponent(ret, pth)
+					if !ok || zero {
+						continue
+					}
+					if ex, ok := v.(*ssa.Extract); ok {
+						if c, ok := ex.Tuple.(*ssa.Call); ok && c.Common().StaticCallee() == unq {
+							switch ex.Index {
+							case 0:
+								if bufPath != "" && bufPath != pth {
+									okPass = false
+								}
+								bufPath = pth
+							case 1:
+								if flagPath != "" && flagPath != pth {
+									okPass = false
+								}
+								flagPath = pth
+							}
+						}
+					}
+				}
+			}
+		}
+		if bufPath == "" || flagPath == "" {
+			okPass = false
+		}
+		for _, b := range dos.Blocks {
+			for _, in := range b.Instrs {
+				ret, ok := in.(*ssa.Return)
+				if !ok || !okPass {
+					continue
+				}
+				b0, z0, k0 := returnComponent(ret, bufPath)
+				f0, z1, k1 := returnComponent(ret, flagPath)
+				if !k0 || !k1 {
+					okPass = false
+					continue
+				}
+				if z0 || isNilConst(b0) {
+					if z1 {
+						continue
+					}
 					if cv, ok := constBool(f0); ok && !cv {
 						continue
 					}
+				}
+				if z0 || z1 {
+					okPass = false
+					continue
 				}
 				e0, ok0 := b0.(*ssa.Extract)
 				e1, ok1 := f0.(*ssa.Extract)
@@ -594,36 +868,33 @@ func R16(p *core.Prog) *core.Result {
 						}
 						// the argument of the view
 						src := vc.Common().Args[0]
-						ex, ok := src.(*ssa.Extract)
 						okGate := false
-						if ok && ex.Index == 0 {
-							if dc, ok := ex.Tuple.(*ssa.Call); ok && dc.Common().StaticCallee() == dos {
-								// dominated by true edge of Extract#1 of the same call
-								for d := b; d != nil; d = d.Idom() {
-									id := d.Idom()
-									if id == nil {
+						if sref, ok := resolveComp(src, 0); ok && sref.path == bufPath && sref.call.Common().StaticCallee() == dos && okPass {
+							// dominated by true edge of the allocated component of the same call
+							for d := b; d != nil; d = d.Idom() {
+								id := d.Idom()
+								if id == nil {
+									break
+								}
+								iff, ok := id.Instrs[len(id.Instrs)-1].(*ssa.If)
+								if !ok {
+									continue
+								}
+								cond, want := iff.Cond, true
+								for {
+									u, ok := cond.(*ssa.UnOp)
+									if !ok || u.Op != token.NOT {
 										break
 									}
-									iff, ok := id.Instrs[len(id.Instrs)-1].(*ssa.If)
-									if !ok {
-										continue
+									cond, want = u.X, !want
+								}
+								if fref, ok := resolveComp(cond, 0); ok && fref.call == sref.call && fref.path == flagPath {
+									edge := 0
+									if !want {
+										edge = 1
 									}
-									cond, want := iff.Cond, true
-									for {
-										u, ok := cond.(*ssa.UnOp)
-										if !ok || u.Op != token.NOT {
-											break
-										}
-										cond, want = u.X, !want
-									}
-									if fe, ok := cond.(*ssa.Extract); ok && fe.Tuple == ex.Tuple && fe.Index == 1 {
-										edge := 0
-										if !want {
-											edge = 1
-										}
-										if id.Succs[edge] == d && len(d.Preds) == 1 {
-											okGate = true
-										}
+									if id.Succs[edge] == d && len(d.Preds) == 1 {
+										okGate = true
 									}
 								}
 							}
@@ -760,7 +1031,7 @@ func R16(p *core.Prog) *core.Result {
 				if !isByteSlice(prm.Type()) || i == 0 {
 					continue
 				}
-				if core.FuncName(f) == "stepKind" && prm.Name() == "kind" {
+				if isLiteralTableParam(prm) {
 					continue
 				}
 				chunks++
